@@ -98,9 +98,14 @@ type CertOpts struct {
 	NoBasicConstraints bool   // omit the basicConstraints extension
 	NoSKI              bool
 	NoAKI              bool
-	NotBefore          time.Time
-	NotAfter           time.Time
-	SigAlg             x509.SignatureAlgorithm
+	// AKIForm selects the authorityKeyIdentifier of an issued certificate: "" = keyIdentifier only
+	// (what Go emits), "long" = keyIdentifier + authorityCertIssuer + authorityCertSerialNumber (OpenSSL
+	// keyid,issuer:always), "issuer-serial" = the latter two only, "uri-serial" = a URI as
+	// authorityCertIssuer + serial. NoAKI omits the extension.
+	AKIForm   string
+	NotBefore time.Time
+	NotAfter  time.Time
+	SigAlg    x509.SignatureAlgorithm
 }
 
 func ski(pub crypto.PublicKey) []byte {
@@ -193,6 +198,9 @@ func (ca *CA) Issue(o CertOpts) *CA {
 		cp.SubjectKeyId = nil
 		parent = &cp
 	}
+	if o.AKIForm != "" && !o.NoAKI {
+		t.ExtraExtensions = append(t.ExtraExtensions, pkix.Extension{Id: asn1.ObjectIdentifier{2, 5, 29, 35}, Value: AKIValue(o.AKIForm, ca.Cert)})
+	}
 	der, err := x509.CreateCertificate(rand.Reader, t, parent, key.Public(), ca.Key)
 	if err != nil {
 		panic(fmt.Sprintf("pki: issue: %v", err))
@@ -202,6 +210,43 @@ func (ca *CA) Issue(o CertOpts) *CA {
 		panic(fmt.Sprintf("pki: parse issued: %v", err))
 	}
 	return &CA{Cert: c, Key: key}
+}
+
+// AKIValue builds the value of an authorityKeyIdentifier extension naming issuer in the given form.
+func AKIValue(form string, issuer *x509.Certificate) []byte {
+	tlv := func(tag byte, content []byte) []byte {
+		var l []byte
+		switch n := len(content); {
+		case n < 128:
+			l = []byte{byte(n)}
+		case n < 256:
+			l = []byte{0x81, byte(n)}
+		default:
+			l = []byte{0x82, byte(n >> 8), byte(n)}
+		}
+		return append(append([]byte{tag}, l...), content...)
+	}
+	serial := issuer.SerialNumber.Bytes()
+	if len(serial) == 0 || serial[0]&0x80 != 0 {
+		serial = append([]byte{0}, serial...)
+	}
+	var parts []byte
+	if form == "long" {
+		parts = append(parts, tlv(0x80, issuer.SubjectKeyId)...)
+	}
+	switch form {
+	case "long", "issuer-serial":
+		parts = append(parts, tlv(0xa1, tlv(0xa4, issuer.RawIssuer))...)
+	case "uri-serial":
+		parts = append(parts, tlv(0xa1, tlv(0x86, []byte("http://ca.example.org/issuer")))...)
+	}
+	parts = append(parts, tlv(0x82, serial)...)
+	return tlv(0x30, parts)
+}
+
+// LeafAKI is Leaf with a chosen authorityKeyIdentifier form.
+func (ca *CA) LeafAKI(serial *big.Int, cdp []string, ocsp []string, akiForm string) *x509.Certificate {
+	return ca.Issue(CertOpts{CN: "leaf " + serial.String(), Serial: serial, CDP: cdp, OCSP: ocsp, AKIForm: akiForm}).Cert
 }
 
 // Leaf is a convenience for an end-entity certificate.
